@@ -80,8 +80,9 @@ class LockFlow:
     member calls are direct lock operations (spinlock, mutex, stop_state ...)."""
 
     def __init__(self, fn, entry_held=(), mutex_call_re=r"(^|::)(lock|unlock|try_lock)$", alias=None,
-                 extra_release=None):
+                 extra_release=None, try_guard_recs=()):
         self.fn = fn
+        self.try_guard_recs = set(try_guard_recs)
         self.alias = alias or {}
         self.unknown = []        # unrecognised idioms (reported as analysis-broken by callers)
         self.release_events = set()   # (b, i) of events that release some lock
@@ -110,6 +111,9 @@ class LockFlow:
             gk = guard_kind(ev.get("rec"))
             var = ev.get("var")
             args = ev.get("args", [])
+            if ev.get("rec") in self.try_guard_recs and args and var:
+                # project-specific RAII helper that may or may not have taken the lock (tested via operator bool)
+                return st.setg(var, self.lid(args[0]), None)
             if gk == "guard":
                 if not args:
                     return st.setg(var, None, False) if var else st
@@ -189,6 +193,10 @@ class LockFlow:
                 return st
             l, o, kind = g
             st2 = st.delg(var)
+            if ev.get("rec") in self.try_guard_recs:
+                if o and l is not None:
+                    return self._release(st2, l, pos)
+                return st2
             if kind == "guard":
                 if o and l is not None:
                     return self._release(st2, l, pos)
@@ -265,7 +273,7 @@ class LockFlow:
         m = re.match(r"^(\w+)(\.owns_lock\(\))?$", atom)
         if m:
             g = st.g(m.group(1))
-            if g is not None and g[2] is None:
+            if g is not None and g[1] is None:
                 l, o, kind = g
                 if truth:
                     return st.setg(m.group(1), l, True).hold(l)
